@@ -32,7 +32,7 @@ let mk_raw trace =
       if flg' <> flg then flagbad := true;
       if found < 0 then None else Some (ni found, List.map zi subs)
 
-let do_ren hex order td lim ctxf tracew =
+let do_ren full hex order td lim ctxf tracew =
   let s = bytes_of_hex hex in
   let trace = parse_trace tracew in
   miss := false; flagbad := false;
@@ -58,6 +58,7 @@ let do_ren hex order td lim ctxf tracew =
   (match dir_reorder s xtd cf raw ident with
    | None -> pr "FUEL"
    | Some ord -> List.iter (fun i -> pr "%d," (inat i)) ord);
+  if full then begin
   let pos = ren_position dr o s in
   let posa = Array.of_list (List.map iz pos) in
   let total = if Array.length posa > n then posa.(n) else -99 in
@@ -78,7 +79,8 @@ let do_ren hex order td lim ctxf tracew =
         (iz (ren_next dr o s zp (zi 1))) (iz (ren_next dr o s zp (zi (-1))))
         (iz (pos_next pos (ni n) zp false)) (iz (pos_next pos (ni n) zp true))
         (iz (pos_prev pos (ni n) zp false)) (iz (pos_prev pos (ni n) zp true))
-    done) ranges;
+    done) ranges
+  end;
   if !miss then pr " ORACLE-MISS";
   if !flagbad then pr " FLAG-MISMATCH";
   if !bad then pr " BADSPAN";
@@ -183,7 +185,8 @@ let do_fasweep () =
 let () =
   iter_lines (fun l ->
     (match words l with
-     | ["ren"; h; o; td; lim; cf; tr] -> do_ren h (ios o) (ios td) (ios lim) (ios cf) tr
+     | ["ren"; h; o; td; lim; cf; tr] -> do_ren true h (ios o) (ios td) (ios lim) (ios cf) tr
+     | ["dir"; h; o; td; lim; cf; tr] -> do_ren false h (ios o) (ios td) (ios lim) (ios cf) tr
      | ["shape"; h; x] -> do_shape h (ios x)
      | ["wsweep"; lo; hi] -> do_wsweep (ios lo) (ios hi)
      | ["wclass"; lo; hi] -> do_wclass (ios lo) (ios hi)
